@@ -17,6 +17,8 @@ use crate::{
 pub enum WShip {
     Rx(watch::Receiver<u64>),
     Tx(watch::Sender<u64>),
+    /// the sender inside a value that is large enough to be serialized twice (buffered attempt, then streaming)
+    TxPad(Vec<u8>, watch::Sender<u64>, Vec<u8>),
     BRx1(broadcast::Receiver<u64, remoc::codec::Default, 1>),
     BRx2(broadcast::Receiver<u64, remoc::codec::Default, 2>),
     BRx4(broadcast::Receiver<u64, remoc::codec::Default, 4>),
@@ -91,13 +93,14 @@ pub fn c15_run(run: u64, seed: u64) -> RunOut {
     let h1 = *rng.pick(&[0u64, 0, 20, 50]);
     let hops = 1 + rng.usize_below(2);
     let sender_remote = rng.chance(25);
+    let pad_len: usize = if rng.chance(50) { *rng.pick(&[100usize, 1500, 12_000]) } else { 0 };
     let n_updates = 1 + rng.usize_below(40);
     let transfer_at = rng.usize_below(n_updates + 1);
     let extra_at = rng.usize_below(n_updates + 1);
     let drop_sender = rng.chance(70);
     let onward_fails = hops == 2 && rng.chance(30);
     let replay = json!({"onward_hop_fails": onward_fails, "run": run, "seed": seed, "cfg_a": cfg_json(&cfg_a), "cfg_b": cfg_json(&cfg_b), "net": netcfg_class(&netcfg), "h1_pct": h1,
-        "hops": hops, "sender_remote": sender_remote, "updates": n_updates, "transfer_at": transfer_at, "extra_receiver_at": extra_at, "drop_sender": drop_sender});
+        "hops": hops, "sender_remote": sender_remote, "sender_shipped_with_padding": pad_len, "updates": n_updates, "transfer_at": transfer_at, "extra_receiver_at": extra_at, "drop_sender": drop_sender});
     let mut out = RunOut::default();
     let panics0 = crate::mem::panic_count();
     let prefix = crate::clock::thread_prefix();
@@ -129,11 +132,14 @@ pub fn c15_run(run: u64, seed: u64) -> RunOut {
         if sender_remote {
             let tx = sender_local.take().unwrap();
             let ship = crate::sched::spawn(async move {
-                let r = tx_ab.send(WShip::Tx(tx)).await.map_err(|e| e.to_string());
+                let r = tx_ab.send(if pad_len > 0 { WShip::TxPad(vec![1u8; pad_len / 2], tx, vec![2u8; pad_len]) } else { WShip::Tx(tx) }).await.map_err(|e| e.to_string());
                 (r, tx_ab)
             });
             let got = or_quiescent(rx_ab.recv()).await;
-            let Some(Ok(Some(WShip::Tx(rtx)))) = got else { return Err("watch sender did not arrive".into()) };
+            let rtx = match got {
+                Some(Ok(Some(WShip::Tx(t)))) | Some(Ok(Some(WShip::TxPad(_, t, _)))) => t,
+                _ => return Err("watch sender did not arrive".into()),
+            };
             let (_, t) = ship.await.map_err(|e| e.to_string())?;
             tx_ab = t;
             remote_sender_task = Some(crate::sched::spawn(async move {
